@@ -8,7 +8,7 @@
 
 using namespace vh;
 
-static long partinv_ncases(const std::string& tier) { return tier == "thorough" ? 12000 : 80; }
+static long partinv_ncases(const std::string& tier) { return tier == "thorough" ? 48000 : 80; }
 
 namespace {
 struct Obs {
@@ -17,7 +17,7 @@ struct Obs {
     std::vector<cd> G; std::vector<double> tolG;           // per (pair, n)
     std::vector<cd> chi; std::vector<double> tolChi;       // per (quad, n) incl. tau points
     std::vector<cd> ea;                                    // ensemble averages
-    std::vector<cd> chi4; double S4 = 0; double tol4 = 0;
+    std::vector<cd> chi4; double S4 = 0; double tol4 = 0; bool straddle = false;
     long blocks = 0;
 };
 }
@@ -26,6 +26,8 @@ static void partinv_run(Ctx& c) {
     Rng& r = c.rng;
     GenOpts g; g.max_modes = c.thorough() ? (r.coin(0.25) ? 6 : 5) : 4; g.min_modes = 2; g.beta_hi = c.thorough() ? 60 : 20; g.allow_unbalanced = true;
     ModelSpec m = gen_model(r, g);
+    const bool witness18 = (c.k == 9);      // fixed input of finding #18 (DESIGN 9.3)
+    if (witness18) m = finding18_model(false);
     const double beta = m.beta;
     // choose the observables once (by index), shared by all partitions
     int N = m.nmodes();
@@ -36,7 +38,7 @@ static void partinv_run(Ctx& c) {
     std::vector<std::array<long, 3>> triples = {{0, 0, 0}, {0, -1, 0}, {1, -2, 1}, {2, 1, 2}, {1, 0, -1}, {r.range(-2, 2), r.range(-2, 2), r.range(-2, 2)}};
     std::vector<long> ns = {0, -1, 2, -30};
     std::vector<long> bns = {0, 1, -2};
-    bool do4 = N <= 3 || (c.thorough() && N <= 4 && r.coin(0.3));
+    bool do4 = N <= 3 || (c.thorough() && N <= 4 && r.coin(0.3)) || witness18;
 
     // partition plan
     std::vector<int> modes; if (m.balanced_spins()) modes.push_back(PM_DEFAULT); modes.push_back(PM_IGNORE); modes.push_back(PM_CUSTOM); if (r.coin(0.5)) modes.push_back(PM_CUSTOM);
@@ -73,7 +75,7 @@ static void partinv_run(Ctx& c) {
             cd vt = X.of_tau(0.7 * beta); o.chi.push_back(vt); o.tolChi.push_back(tc.at_tau(0.7 * beta, vt, true));
         }
         if (do4) {
-            G2Tol gt; gt.prepare(lb.E, beta); double S = 1e-3 * beta * beta * beta;
+            G2Tol gt; gt.prepare(lb.E, beta, &lb.block); double S = 1e-3 * beta * beta * beta; o.straddle = gt.straddle;
             for (auto& q : q4s) {
                 Pomerol::TwoParticleGF X(*p.S, *p.H, p.Ops->getAnnihilationOperator((Pomerol::ParticleIndex)q[0]), p.Ops->getAnnihilationOperator((Pomerol::ParticleIndex)q[1]), p.Ops->getCreationOperator((Pomerol::ParticleIndex)q[2]), p.Ops->getCreationOperator((Pomerol::ParticleIndex)q[3]), *p.DM);
                 X.prepare(); X.compute();
@@ -82,6 +84,19 @@ static void partinv_run(Ctx& c) {
             o.S4 = S; o.tol4 = gt.tol(S);
         }
         obs.push_back(o);
+    }
+    if (c.replay && do4 && !obs.empty()) {
+        // replay aid: the definition integral of the compared two-particle values, so that the witness shows which partition deviates
+        Pipeline p0; p0.build_lattice(m); RefED ed; ed.solve(p0.ref_H());
+        J ov = J::arr(); auto wn = [&](long n) { return (2 * n + 1) * M_PI / beta; };
+        for (auto& q : q4s) for (auto& t : triples) {
+            cd v = expm_chi4(ed, jw_c(N, q[0]), jw_c(N, q[1]), jw_c(N, q[2]).adjoint(), jw_c(N, q[3]).adjoint(), beta, wn(t[0]), wn(t[1]), wn(t[2]));
+            J row = J::obj().set("quad", std::to_string(q[0]) + std::to_string(q[1]) + std::to_string(q[2]) + std::to_string(q[3])).set("n", std::to_string(t[0]) + "," + std::to_string(t[1]) + "," + std::to_string(t[2])).set("definition", v);
+            size_t idx = (size_t)(&q - &q4s[0]) * triples.size() + (size_t)(&t - &triples[0]);
+            for (auto& o : obs) if (idx < o.chi4.size()) row.set(o.name, o.chi4[idx]);
+            ov.push(row);
+        }
+        c.extra.set("chi4_vs_definition", ov);
     }
     c.model = m.describe();
     J parts = J::arr(); for (auto& o : obs) parts.push(J::obj().set("mode", o.name).set("ioms", o.desc).set("blocks", o.blocks));
@@ -106,7 +121,7 @@ static void partinv_run(Ctx& c) {
         for (size_t i = 0; i < a.ea.size(); ++i) c.cmp("ensemble-average", "C08:ensemble-average:" + pk, b.ea[i], a.ea[i], trel * 4 + 1e-9, det("<c+c> #" + std::to_string(i)));
         for (size_t i = 0; i < a.G.size(); ++i) c.cmp("greens-function", "C08:greens-function:" + pk, b.G[i], a.G[i], a.tolG[i] + b.tolG[i], det("G value #" + std::to_string(i) + " (pair " + std::to_string(i / (ns.size() + 1)) + ")"));
         for (size_t i = 0; i < a.chi.size(); ++i) c.cmp("susceptibility", "C08:susceptibility:" + pk, b.chi[i], a.chi[i], a.tolChi[i] + b.tolChi[i], det("susceptibility value #" + std::to_string(i)));
-        for (size_t i = 0; i < a.chi4.size(); ++i) c.cmp("chi4", "C08:chi4:" + pk, b.chi4[i], a.chi4[i], a.tol4 + b.tol4, det("chi4 value #" + std::to_string(i)));
+        for (size_t i = 0; i < a.chi4.size(); ++i) c.cmp("chi4", (a.straddle || b.straddle) ? std::string("C08:chi4:merge-vs-resonance-window") : "C08:chi4:" + pk, b.chi4[i], a.chi4[i], a.tol4 + b.tol4, det("chi4 value #" + std::to_string(i)));
     }
     c.count("partitions", (long)obs.size()); c.count("chi4_compared", do4 ? 1 : 0);
     c.nontrivial = differ && N >= 2;
